@@ -629,3 +629,83 @@ def check_dominated(body, first, then):
     """Sites in `then` ([(block, node)]) that are not dominated by any site in `first`."""
     fb = {b for b, _ in first}
     return [(b, n) for b, n in then if not any(f != b and body.dominates(f, b) for f in fb)]
+
+
+# ---------------------------------------------------------------- variant typestate
+def variant_state_at_exits(F, body, ref_local, adt, variants):
+    """Forward dataflow of the set of variants the enum value behind `*ref_local`
+    (a `&mut Enum` local) may currently hold.
+
+    * entry: all variants;
+    * a switch on `discriminant(*ref_local)` refines the state on each edge;
+    * `*ref_local = Enum::X{..}` and `mem::replace(ref, Enum::X{..})` set it to {X}
+      (an unrecognised value written sets it to all variants);
+    Returns {block: frozenset(state at block entry)} for live blocks."""
+    du = DefUse(body)
+    allv = frozenset(variants)
+
+    def is_ref_place(p):
+        p = du.deref_origin(p)
+        return p['l'] == ref_local and (p.get('p') or []) == ['*']
+
+    def agg_variant(operand):
+        org = du.origin(operand)
+        if org['k'] == 'agg' and org['rv'].get('ak') == 'adt' and name_matches(org['rv']['adt'], adt):
+            return org['rv']['variant']
+        return None
+
+    def transfer(b, state):
+        blk = body.blocks[b]
+        for s in blk['s']:
+            if s['k'] == 'assign' and is_ref_place(s['lhs']):
+                rv = s['rv']
+                v = None
+                if rv['k'] == 'agg' and rv.get('ak') == 'adt' and name_matches(rv['adt'], adt):
+                    v = rv['variant']
+                elif rv['k'] == 'use':
+                    v = agg_variant(rv['o'])
+                state = frozenset([v]) if v else allv
+        t = blk['t']
+        if t['k'] == 'call' and callee_is(t, ['core::mem::replace', 'core::mem::swap', 'core::mem::take']):
+            a0 = t['a'][0]
+            org = du.origin(a0)
+            target = None
+            if org['k'] == 'ref':
+                target = org['pl']
+            elif org['k'] in ('place', 'arg'):
+                target = operand_place(a0)
+            hit = False
+            if target is not None:
+                tp = du.deref_origin(target)
+                hit = tp['l'] == ref_local
+            if operand_local(a0) == ref_local:
+                hit = True
+            if hit:
+                v = agg_variant(t['a'][1]) if len(t['a']) > 1 else None
+                state = frozenset([v]) if v else allv
+        return state
+
+    live = body.live_blocks()
+    state_in = {0: allv}
+    work = [0]
+    while work:
+        b = work.pop()
+        st = transfer(b, state_in[b])
+        t = body.term(b)
+        edge_states = {}
+        if t['k'] == 'switch':
+            ec = edge_condition(F, body, du, b)
+            if ec and ec[0]['k'] == 'discr' and is_ref_place(ec[0]['pl']):
+                for tgt, labs in ec[1].items():
+                    names = {l[1] for l in labs if l[0] == 'variant'}
+                    if names:
+                        edge_states[tgt] = st & frozenset(names)
+        for s in body.succ(b):
+            ns = edge_states.get(s, st)
+            old = state_in.get(s)
+            new = ns if old is None else (old | ns)
+            if old is None or new != old:
+                state_in[s] = new
+                work.append(s)
+    out = {b: transfer(b, s) for b, s in state_in.items() if b in live}
+    return {b: s for b, s in state_in.items() if b in live}, out
